@@ -22,6 +22,7 @@ Finding keys: "range/<clause>/<root kind>", "fit/<C01 blame key>" (e.g. "fit/tab
 "text/min", "text/max", "text/max/blank-lines", "text/wrap-at-max", "crash/<Type>/<file>:<function>".
 """
 import itertools
+import os
 
 from .. import gen
 from ..par import Result, deadline_passed
@@ -32,7 +33,9 @@ from . import c01
 ID = "C09"
 LEVEL = "exploration"
 ENGINE = "E1"
-CAP_S = {"quick": 1500, "thorough": 3600}
+CAP_S = {"quick": 900, "thorough": 3600}
+if os.environ.get("VF_CAP_S"):       # development aid: shorter wall cap (the run then reports exhaustive=false)
+    CAP_S = {"quick": int(os.environ["VF_CAP_S"]), "thorough": int(os.environ["VF_CAP_S"])}
 TECHNIQUE = ("bounded-exhaustive enumeration of renderable trees and of all short strings x every available width, "
              "Measurement.get on the real code judged against range arithmetic, an independent render-and-measure of "
              "the reported minimum / maximum, and a word / line width reference for text")
